@@ -37,14 +37,24 @@ Tags(r, log) ==
             THEN {"Result.stale-entry-kept/same-dir-and-type-as-kept-entry"}
             ELSE {"Result.stale-or-extra/other"})
  \cup (IF u.aborted \/ NewSynthOK(u) THEN {} ELSE {"Result.new-helper-unsupported"})
- \cup (IF HelperSupportKept(u) THEN {} ELSE {"HelperSupportKept"})
+ \cup (IF HelperSupportKept(u) THEN {}
+       ELSE IF \A x \in HelperDropped(u) :
+                  \A j \in Keeps(u) : (~u.plan[j].e.s /\ u.plan[j].e.id = x.nb) => u.plan[j].e.g = "overname"
+            THEN {"HelperSupportKept/supported-entry-is-overname"}
+            ELSE {"HelperSupportKept"})
  \cup (IF KeptInPlace(u) THEN {} ELSE {"KeptInPlace"})
  \cup (IF UnmountOrder(u) THEN {} ELSE {"UnmountOrder"})
  \cup (IF UnmountOrderTrue(u, log) THEN {}
        ELSE IF UnmountOrder(u) THEN {"UnmountOrderTrue/profile-is-not-in-mount-order"}
             ELSE {"UnmountOrderTrue"})
- \cup (IF UnmountStrandsNothing(u, log) THEN {} ELSE {"UnmountOrder.entry-beneath-stays-kept"})
- \cup (IF MountOrder(u) THEN {} ELSE {"MountOrder"})
+ \cup (IF UnmountStrandsNothing(u, log) THEN {}
+       ELSE IF \A pr \in UnmountStrandsBad(u, log) : log[pr[2]].g = "overname"
+            THEN {"UnmountOrder.entry-beneath-stays-kept/kept-entry-is-overname"}
+            ELSE {"UnmountOrder.entry-beneath-stays-kept"})
+ \cup (IF MountOrder(u) THEN {}
+       ELSE IF \A pr \in MountOrderBad(u) : u.plan[pr[1]].e.k = "ensure-dir"
+            THEN {"MountOrder/child-is-ensure-dir"}
+            ELSE {"MountOrder"})
 
 \* how often the antecedents of the clauses were exercised by the real executions (vacuity guard)
 Cov(r, log) ==
